@@ -49,6 +49,71 @@ const xPlainPlusName = "X-VERIF-PLAIN-PLUS"
 
 var xPlainPlus = sasl.Mechanism{Name: xPlainPlusName, Start: sasl.Plain.Start, Next: sasl.Plain.Next}
 
+// roundsMech is an application's own multi-step mechanism (the SASL profile
+// puts no bound on the number of challenges): the initiator sends "r0", the
+// receiver answers "c0", ... after n such rounds the initiator sends
+// identity NUL user NUL password, which the receiver hands to the permission
+// callback.  Every message is checked against what the exchange expects.
+func roundsMech(n int) sasl.Mechanism {
+	return sasl.Mechanism{
+		Name: fmt.Sprintf("X-VERIF-ROUNDS-%d", n),
+		Start: func(m *sasl.Negotiator) (bool, []byte, interface{}, error) {
+			return true, []byte("r0"), 1, nil
+		},
+		Next: func(m *sasl.Negotiator, challenge []byte, data interface{}) (bool, []byte, interface{}, error) {
+			k, _ := data.(int)
+			if m.State()&sasl.Receiving == sasl.Receiving {
+				switch {
+				case k < n:
+					if string(challenge) != fmt.Sprintf("r%d", k) {
+						return false, nil, nil, sasl.ErrInvalidChallenge
+					}
+					return true, []byte(fmt.Sprintf("c%d", k)), k + 1, nil
+				case k == n:
+					parts := bytes.Split(challenge, []byte{0})
+					if len(parts) != 3 {
+						return false, nil, nil, sasl.ErrInvalidChallenge
+					}
+					if m.Permissions(sasl.Credentials(func() ([]byte, []byte, []byte) { return parts[1], parts[2], parts[0] })) {
+						return false, nil, k + 1, nil
+					}
+					return false, nil, nil, sasl.ErrAuthn
+				}
+				return false, nil, nil, sasl.ErrTooManySteps
+			}
+			// initiating side: k messages sent so far
+			if string(challenge) != fmt.Sprintf("c%d", k-1) {
+				return false, nil, nil, sasl.ErrInvalidChallenge
+			}
+			switch {
+			case k < n:
+				return true, []byte(fmt.Sprintf("r%d", k)), k + 1, nil
+			case k == n:
+				u, pw, id := m.Credentials()
+				msg := append(append(append(append(append([]byte{}, id...), 0), u...), 0), pw...)
+				return false, msg, k + 1, nil
+			}
+			return false, nil, nil, sasl.ErrTooManySteps
+		},
+	}
+}
+
+var roundsNames []string
+
+func init() {
+	for _, n := range []int{2, 7, 8, 9, 13} {
+		m := roundsMech(n)
+		allMechs[m.Name] = m
+		roundsNames = append(roundsNames, m.Name)
+	}
+}
+
+func roundsOf(name string) int {
+	n := 0
+	fmt.Sscanf(name, "X-VERIF-ROUNDS-%d", &n)
+	return n
+}
+
 func recvMech(name string) sasl.Mechanism {
 	if name == xPlainPlusName {
 		return xPlainPlus
@@ -141,6 +206,16 @@ func genICase(t *rapid.T) icase {
 	}
 	if rapid.IntRange(0, 3).Draw(t, "advpref") > 0 {
 		c.advertised = append(c.advertised, c.prefs[rapid.IntRange(0, len(c.prefs)-1).Draw(t, "advp")])
+	}
+	if rapid.IntRange(0, 5).Draw(t, "roundsMech") == 0 {
+		// an application's own mechanism with many round trips is preferred and
+		// advertised; the peer plays it honestly for a while
+		m := rapid.SampledFrom(roundsNames).Draw(t, "rounds")
+		c.prefs = append([]string{m}, c.prefs...)
+		c.advertised = append(c.advertised, m)
+		for i, k := 0, rapid.IntRange(0, roundsOf(m)+2).Draw(t, "honestPrefix"); i < k; i++ {
+			c.actions = append(c.actions, action{kind: "honest"})
+		}
 	}
 	na := rapid.IntRange(1, 6).Draw(t, "nactions")
 	for i := 0; i < na; i++ {
@@ -307,10 +382,15 @@ func runInitiator(c icase) iresult {
 				res.tainted = true
 				return wrap("challenge", b64([]byte("r=garbage,s=QSXCR+Q6sek8bf92,i=4096")))
 			case "empty-success":
-				if !res.completed && res.authMech == "PLAIN" {
-					// for PLAIN the honest server has nothing to add: an empty
-					// <success/> is exactly its answer if it accepts the credentials
-					honest()
+				if !res.completed {
+					// when the honest server has nothing to add to its acceptance
+					// (PLAIN; the last step of a mechanism that ends with a message
+					// of the initiator) an empty <success/> is exactly its answer
+					if ok, resp, more := honest(); ok && (more || len(resp) > 0) {
+						// the honest server had more to say: this success is not its own
+						res.completed = false
+						srvDone = true
+					}
 				}
 				if res.completed {
 					res.successRcv = true
@@ -319,10 +399,15 @@ func runInitiator(c icase) iresult {
 				}
 				return wrap("success", "")
 			case "garbage-success":
-				if !res.completed && res.authMech == "PLAIN" {
-					// PLAIN is complete after the initial response; additional data
-					// with success is not part of the mechanism
-					honest()
+				if !res.completed {
+					// a mechanism that ends with a message of the initiator (PLAIN
+					// after the initial response, the last step of the rounds
+					// mechanism) is complete once the honest server accepts that
+					// message; additional data with success is not part of it
+					if ok, resp, more := honest(); ok && (more || len(resp) > 0) {
+						res.completed = false
+						srvDone = true
+					}
 				}
 				if !res.completed {
 					res.tainted = true
@@ -777,4 +862,37 @@ func TestC03Receiver(t *testing.T) {
 			ev.Class("receiver-authenticated")
 		}
 	})
+}
+
+// TestC03Regress: concrete exchanges that once authenticated wrongly, plus the
+// floor for the many-round mechanism (a fully honest exchange authenticates).
+func TestC03Regress(t *testing.T) {
+	ev.Begin(t)
+	honest := func(n int) []action {
+		var a []action
+		for i := 0; i < n; i++ {
+			a = append(a, action{kind: "honest"})
+		}
+		return a
+	}
+	for _, m := range roundsNames {
+		n := roundsOf(m)
+		c := icase{prefs: []string{m, "PLAIN"}, advertised: []string{m}, actions: honest(n + 2)}
+		ev.Case(true, c.String(), "honest-floor-rounds")
+		if r := checkInitiator(t, c); !r.authn {
+			t.Fatalf("harness: the fully honest %s exchange did not authenticate (err=%v log=%v)", m, r.err, r.log)
+		}
+		// fixed 82e644a: <success/> carrying the challenge that makes the
+		// initiator produce its last message (the credentials), which is then
+		// never sent
+		c = icase{prefs: []string{m}, advertised: []string{m}, actions: append(honest(n-1), action{kind: "honest-as-success"})}
+		ev.Case(true, c.String(), "regress-success-before-final-message")
+		checkInitiator(t, c)
+		// the same number of round trips ended by a bare success
+		for k := 0; k <= n; k++ {
+			c = icase{prefs: []string{m}, advertised: []string{m}, actions: append(honest(k), action{kind: "empty-success"})}
+			ev.Case(true, c.String(), "rounds-then-bare-success")
+			checkInitiator(t, c)
+		}
+	}
 }
